@@ -156,6 +156,26 @@ pub(crate) fn io_event_indexed(kind: u32, idx: u64) -> bool {
     false
 }
 
+// ---- I/O event trace (H1): which writes, syncs, creations and renames the engine performs, in order ----
+
+static TRACE_ON: std::sync::atomic::AtomicBool = std::sync::atomic::AtomicBool::new(false);
+static TRACE: std::sync::Mutex<Vec<String>> = std::sync::Mutex::new(Vec::new());
+
+pub fn trace_enable(on: bool) {
+    TRACE_ON.store(on, Ordering::SeqCst);
+}
+
+/// The events recorded since the last call, in order.
+pub fn trace_take() -> Vec<String> {
+    TRACE.lock().unwrap().drain(..).collect()
+}
+
+pub(crate) fn trace(ev: impl FnOnce() -> String) {
+    if TRACE_ON.load(Ordering::SeqCst) {
+        TRACE.lock().unwrap().push(ev());
+    }
+}
+
 pub fn sanitize_namespace(key: &str) -> String {
     crate::wal::config::sanitize_namespace(key)
 }
